@@ -31,6 +31,13 @@ type scalarEval struct {
 	// numerically. Integer phis are resolved along the walked path.
 	num     func(v ssa.Value, env scalarEnv) (int64, bool)
 	intVals map[ssa.Value]int64
+	// integer fields of local structs written during the walk (counts carried in a small struct)
+	mem map[memCell]int64
+}
+
+type memCell struct {
+	al    *ssa.Alloc
+	field int
 }
 
 // numOf evaluates an integer operand: constants, sums, path-resolved phis and what num names.
@@ -50,6 +57,20 @@ func (s *scalarEval) numOf(v ssa.Value, env scalarEnv, depth int) (int64, bool) 
 		if x.Value != nil && x.Value.Kind() == constant.Int {
 			n, ok := constant.Int64Val(x.Value)
 			return n, ok
+		}
+	case *ssa.UnOp:
+		// a field of a local struct: what the walk stored there (a local starts out zeroed)
+		if fa, ok := x.X.(*ssa.FieldAddr); ok && x.Op == token.MUL {
+			if al, isAl := fa.X.(*ssa.Alloc); isAl {
+				if bt, isB := x.Type().Underlying().(*types.Basic); isB && bt.Info()&types.IsInteger != 0 {
+					if n, has := s.mem[memCell{al, fa.Field}]; has {
+						return n, true
+					}
+					if s.mem != nil && localStruct(al) {
+						return 0, true
+					}
+				}
+			}
 		}
 	case *ssa.BinOp:
 		if x.Op == token.ADD {
@@ -132,6 +153,7 @@ func (s *scalarEval) walk(env scalarEnv) (*ssa.Return, []*ssa.BasicBlock, string
 	}
 	s.evalLast = valOf
 	s.intVals = nil
+	s.mem = map[memCell]int64{}
 	for steps := 0; steps < 10000; steps++ {
 		path = append(path, b)
 		var next *ssa.BasicBlock
@@ -152,6 +174,37 @@ func (s *scalarEval) walk(env scalarEnv) (*ssa.Return, []*ssa.BasicBlock, string
 							r, why := valOf(x.Edges[i])
 							if why == "" {
 								vals[x] = r
+							}
+						}
+					}
+				}
+			case *ssa.Store:
+				if s.num == nil {
+					break
+				}
+				switch a := x.Addr.(type) {
+				case *ssa.FieldAddr:
+					if al, isAl := a.X.(*ssa.Alloc); isAl {
+						if n, ok := s.numOf(x.Val, env, 0); ok {
+							s.mem[memCell{al, a.Field}] = n
+						} else {
+							delete(s.mem, memCell{al, a.Field})
+						}
+					}
+				case *ssa.Alloc:
+					st, isStruct := a.Type().(*types.Pointer).Elem().Underlying().(*types.Struct)
+					if !isStruct {
+						break
+					}
+					for i := 0; i < st.NumFields(); i++ {
+						delete(s.mem, memCell{a, i})
+					}
+					if ld, isLd := x.Val.(*ssa.UnOp); isLd && ld.Op == token.MUL {
+						if src, isAl := ld.X.(*ssa.Alloc); isAl {
+							for i := 0; i < st.NumFields(); i++ {
+								if n, has := s.mem[memCell{src, i}]; has {
+									s.mem[memCell{a, i}] = n
+								}
 							}
 						}
 					}
@@ -237,4 +290,31 @@ func isZeroConst(v ssa.Value) bool {
 	}
 	s := c.Value.ExactString()
 	return s == "0" || s == `""`
+}
+
+// localStruct: a struct-typed local whose address does not leave the function (so unwritten fields are zero).
+func localStruct(al *ssa.Alloc) bool {
+	if _, ok := al.Type().(*types.Pointer).Elem().Underlying().(*types.Struct); !ok {
+		return false
+	}
+	refs := al.Referrers()
+	if refs == nil {
+		return false
+	}
+	for _, r := range *refs {
+		switch x := r.(type) {
+		case *ssa.FieldAddr, *ssa.DebugRef:
+		case *ssa.UnOp:
+			if x.Op != token.MUL {
+				return false
+			}
+		case *ssa.Store:
+			if x.Addr != ssa.Value(al) {
+				return false
+			}
+		default:
+			return false
+		}
+	}
+	return true
 }
